@@ -16,7 +16,13 @@
 (***************************************************************************)
 EXTENDS Naturals, Sequences, FiniteSets, TLC
 
-CONSTANTS Threads, Vals, UseLock
+CONSTANTS Threads, Vals, UseLock, Failing, ReleaseLast
+
+\* A construction may fail after its identifiers were drawn (an invalid command code or Application-ID is only noticed when
+\* the header is built).  Failing: the threads whose construction fails.  The design leaves the two identifiers registered
+\* (burnt, never handed out again).  ReleaseLast = TRUE is a deviation that "gives them back" by popping the LAST entry of each
+\* registry, which need not be the failing thread's own: a request created in between loses its registration and its
+\* identifier can be drawn again.  (Failing = {} and ReleaseLast = FALSE give the plain protocol.)
 
 Regs == <<"hbh", "e2e">>
 VARIABLES pc, reg, val, issued, owner, result
@@ -53,13 +59,25 @@ IdUnlock(t) == /\ pc[t] = "unlock" /\ owner = t
              /\ reg' = [reg EXCEPT ![t] = IF @ = 1 THEN 2 ELSE @]
              /\ UNCHANGED <<val, issued, result>>
 
-Next == \E t \in Threads : IdLock(t) \/ (\E v \in Vals : IdDraw(t, v)) \/ IdTest(t) \/ IdAppend(t) \/ IdUnlock(t)
+\* the construction of a failing thread raises once both identifiers are drawn: no request exists
+DropLast(q) == IF q = <<>> THEN q ELSE SubSeq(q, 1, Len(q) - 1)
+IdAbort(t) == /\ t \in Failing /\ pc[t] = "done"
+              /\ pc' = [pc EXCEPT ![t] = "aborted"]
+              /\ result' = [result EXCEPT ![t] = [r \in {"hbh", "e2e"} |-> NoVal]]
+              /\ issued' = IF ReleaseLast THEN [r \in {"hbh", "e2e"} |-> DropLast(issued[r])] ELSE issued
+              /\ UNCHANGED <<reg, val, owner>>
+
+Next == \E t \in Threads : IdLock(t) \/ (\E v \in Vals : IdDraw(t, v)) \/ IdTest(t) \/ IdAppend(t) \/ IdUnlock(t) \/ IdAbort(t)
 Spec == Init /\ [][Next]_vars
 
 NoDupSeq(s) == \A i, j \in 1..Len(s) : s[i] = s[j] => i = j
+\* (a failing thread counts while it still holds its identifiers: pc = "done" is the moment before the exception)
 Distinct == /\ \A r \in {"hbh", "e2e"} : NoDupSeq(issued[r])
             /\ \A t, u \in Threads, r \in {"hbh", "e2e"} :
                   (t # u /\ result[t][r] # NoVal /\ result[u][r] # NoVal) => result[t][r] # result[u][r]
+\* an identifier of a request that exists stays registered for ever
+Registered == \A t \in Threads, r \in {"hbh", "e2e"} :
+                  (result[t][r] # NoVal /\ (pc[t] \in {"done", "aborted"} \/ (r = "hbh" /\ reg[t] = 2))) => InSeq(result[t][r], issued[r])
 Mutex == UseLock => \A t \in Threads : pc[t] \in {"draw", "test", "append", "unlock"} => owner = t
 
 (***************************************************************************)
